@@ -93,6 +93,8 @@ class Run:
         self.harness = spec["harness"]
         self.variant = spec.get("variant", "asan")
         self.bin = os.path.join(root, self.variant, "bin", self.harness)
+        # a harness may be a script speaking the same protocol (process-level checks)
+        self.cmd0 = ["python3", os.path.join(VERIF, spec["script"])] if spec.get("script") else [self.bin]
         self.args = ["--tier", tier, "--prop", spec.get("prop", prop)] + [str(a) for a in spec.get("args", [])]
         self.env = base_env()
         self.env.update(spec.get("env", {}))
@@ -108,7 +110,7 @@ class Run:
         for i in range(self.nshards):
             out = os.path.join(self.workdir, "%s.s%d.jsonl" % (self.tag, i))
             self.outs.append(out)
-            cmd = [self.bin] + self.args + ["--shard", "%d/%d" % (i, self.nshards), "--out", out,
+            cmd = self.cmd0 + self.args + ["--shard", "%d/%d" % (i, self.nshards), "--out", out,
                                             "--deadline", "%.0f" % self.deadline]
             if "case_timeout" in self.spec:
                 cmd += ["--case-timeout", str(self.spec["case_timeout"])]
@@ -137,7 +139,7 @@ class Run:
         files = [o + suffix for o in self.outs if os.path.exists(o + suffix)]
         if not files:
             return 0, 0
-        r = subprocess.run([self.bin, "--merge-count"] + files, env=self.env, capture_output=True, text=True)
+        r = subprocess.run(self.cmd0 + ["--merge-count"] + files, env=self.env, capture_output=True, text=True)
         try:
             a, b = r.stdout.split()
             return int(a), int(b)
@@ -149,7 +151,7 @@ class Run:
         out = os.path.join(self.workdir, "%s.replay.%d.jsonl" % (self.tag, idx))
         if os.path.exists(out):
             os.unlink(out)
-        cmd = [self.bin] + self.args + ["--replay", str(idx), "--out", out]
+        cmd = self.cmd0 + self.args + ["--replay", str(idx), "--out", out]
         try:
             r = subprocess.run(cmd, env=self.env, capture_output=True, text=True, errors="replace",
                                timeout=timeout, cwd=self.workdir)
@@ -298,7 +300,7 @@ def do_check(pid, tier):
         if not ok:
             flaky.append("%s (case %d): %s" % (key, v["idx"], why))
             continue
-        rec = {"property": pid, "tier": tier, "harness": v["run"].harness, "variant": v["run"].variant,
+        rec = {"property": pid, "tier": tier, "harness": v["run"].harness, "variant": v["run"].variant, "script": v["run"].spec.get("script"),
                "args": v["run"].args, "env": v["run"].spec.get("env", {}), "idx": v["idx"], "key": key,
                "case": v["desc"], "detail": v.get("detail", ""), "instances": len(vs),
                "report": v.get("report", "")[:3000]}
@@ -384,6 +386,8 @@ def do_replay(pid, path):
     shutil.rmtree(workdir, ignore_errors=True)
     os.makedirs(workdir)
     spec = {"harness": rec["harness"], "variant": rec["variant"], "env": rec.get("env", {})}
+    if rec.get("script"):
+        spec["script"] = rec["script"]
     r = Run(spec, rec["tier"], root, workdir, "rp", 0, pid)
     r.args = rec["args"]
     if PROPS[pid].get("tools"):
